@@ -9,14 +9,14 @@ use quizx::graph::{EType, GraphLike, VType, V};
 use quizx::tensor::ToTensor;
 use quizx::vec_graph::Graph;
 
-struct Rng(u64);
+pub struct Rng(pub u64);
 impl Rng {
-    fn next(&mut self) -> u64 { self.0 = self.0.wrapping_mul(6364136223846793005).wrapping_add(1442695040888963407); self.0 >> 33 }
-    fn below(&mut self, n: u64) -> u64 { self.next() % n }
+    pub fn next(&mut self) -> u64 { self.0 = self.0.wrapping_mul(6364136223846793005).wrapping_add(1442695040888963407); self.0 >> 33 }
+    pub fn below(&mut self, n: u64) -> u64 { self.next() % n }
 }
 
 /// a small diagram; `graph_like`: only Z spiders joined by Hadamard wires (what local complementation and pivoting want)
-fn diagram(r: &mut Rng, graph_like: bool) -> Graph {
+pub fn diagram(r: &mut Rng, graph_like: bool) -> Graph {
     let mut g = Graph::new();
     let ns = 1 + r.below(4) as usize;
     let phases: [(i64, i64); 8] = [(0, 1), (1, 1), (1, 2), (-1, 2), (1, 4), (3, 4), (0, 1), (1, 1)];
@@ -52,7 +52,7 @@ fn diagram(r: &mut Rng, graph_like: bool) -> Graph {
 
 /// a star: one centre with a phase the matchers care about, 1-4 spiders around it of either colour on either kind of wire, now and then
 /// joined among themselves, each possibly carrying a boundary — the near-misses of the side conditions
-fn star(r: &mut Rng) -> Graph {
+pub fn star(r: &mut Rng) -> Graph {
     let mut g = Graph::new();
     let phases: [(i64, i64); 6] = [(0, 1), (1, 1), (1, 2), (-1, 2), (1, 4), (0, 1)];
     let (n, d) = phases[r.below(6) as usize];
@@ -78,7 +78,7 @@ fn star(r: &mut Rng) -> Graph {
     g
 }
 
-fn same_map(a: &Graph, b: &Graph) -> Result<(), String> {
+pub fn same_map(a: &Graph, b: &Graph) -> Result<(), String> {
     let (ta, tb) = (guard(|| a.to_tensor4())?, guard(|| b.to_tensor4())?);
     if ta == tb { Ok(()) } else { Err(format!("the exact tensor changed: {:?} became {:?}", ta.iter().take(8).collect::<Vec<_>>(), tb.iter().take(8).collect::<Vec<_>>())) }
 }
@@ -86,7 +86,7 @@ fn same_map(a: &Graph, b: &Graph) -> Result<(), String> {
 type M1 = (&'static str, fn(&Graph, V) -> bool, fn(&mut Graph, V) -> bool, fn(&mut Graph, V));
 type M2 = (&'static str, fn(&Graph, V, V) -> bool, fn(&mut Graph, V, V) -> bool, fn(&mut Graph, V, V));
 
-fn describe(g: &Graph) -> String {
+pub fn describe(g: &Graph) -> String {
     let vs: Vec<String> = g.vertices().map(|v| format!("{}:{:?}({})", v, g.vertex_type(v), g.phase(v))).collect();
     let es: Vec<String> = g.edges().map(|(s, t, e)| format!("{}-{}{}", s, t, if e == EType::H { "h" } else { "" })).collect();
     format!("vertices [{}] edges [{}] inputs {:?} outputs {:?}", vs.join(" "), es.join(" "), g.inputs(), g.outputs())
